@@ -55,8 +55,10 @@ theorem msgAt_none (acts : List (Nat → Act)) (j : Nat) : msgAt acts none j = n
 
 /-! ### the loops -/
 
-def bumpStart (e : ElemRt) : ElemRt := { e with starts := e.starts + 1 }
 def bumpEnd (e : ElemRt) : ElemRt := { e with ends := e.ends + 1 }
+
+/-- what `event_end` of an element depends on -/
+def endView (e : ElemRt) : Elem × Nat := (e.spec, e.ends)
 
 /-- `upItemsAt` with the stack index shifted by `off` (the loops are proved from any index on) -/
 def upItemsOff (c : Ctx) (off : Nat) (es : List ElemRt) (m0 : Option Nat) (j : Nat) : List Item :=
@@ -94,9 +96,10 @@ theorem endItemsOff_succ (c : Ctx) (off : Nat) (e : ElemRt) (es : List ElemRt) (
   have h : off + (j + 1) = off + 1 + j := by omega
   simp only [endItemsOff, List.getElem?_cons_succ, h]
 
+/-- the message that leaves the stack and the trace of the upstream loop -/
 theorem upstream_spec (c : Ctx) (es : List ElemRt) : ∀ (off : Nat) (m0 : Option Nat),
-    upstream c off es m0 =
-      (es.map bumpStart, msgAt (es.map (·.spec.act)) m0 es.length,
+    (upstream c off es m0).2 =
+      (msgAt (es.map (·.spec.act)) m0 es.length,
        (List.range es.length).flatMap (upItemsOff c off es m0)) := by
   induction es with
   | nil => intro off m0; simp [upstream, msgAt]
@@ -109,11 +112,22 @@ theorem upstream_spec (c : Ctx) (es : List ElemRt) : ∀ (off : Nat) (m0 : Optio
     | none =>
       simp only [upstream, ih, List.map_cons, List.length_cons, msgAt_cons, range_succ_flatMap,
         hfun]
-      simp [upItemsOff, bumpStart, msgAt]
+      simp [upItemsOff, msgAt]
     | some id =>
       simp only [upstream, ih, List.map_cons, List.length_cons, msgAt_cons, range_succ_flatMap,
         hfun]
-      simp [upItemsOff, bumpStart, msgAt]
+      simp [upItemsOff, msgAt]
+
+/-- the upstream loop only moves the `event_start` / `incoming` counters -/
+theorem upstream_view (c : Ctx) (es : List ElemRt) : ∀ (off : Nat) (m0 : Option Nat),
+    (upstream c off es m0).1.map endView = es.map endView := by
+  induction es with
+  | nil => intro off m0; simp [upstream]
+  | cons e es ih =>
+    intro off m0
+    cases m0 with
+    | none => simp [upstream, ih, endView]
+    | some id => simp [upstream, ih, endView]
 
 theorem downstream_spec (c : Ctx) (es : List ElemRt) : ∀ (off : Nat),
     downstream c off es =
@@ -127,26 +141,64 @@ theorem downstream_spec (c : Ctx) (es : List ElemRt) : ∀ (off : Nat),
     simp only [downstream, ih, List.map_cons, List.length_cons, range_succ_reverse_flatMap, hfun]
     simp [endItemsOff, bumpEnd]
 
-theorem endItemsAt_bumpStart (c : Ctx) (es : List ElemRt) (j : Nat) :
-    endItemsAt c (es.map bumpStart) j = endItemsAt c es j := by
-  simp only [endItemsAt, List.getElem?_map]
-  cases es[j]? <;> simp [endItems, bumpStart]
+theorem endItemsAt_view (c : Ctx) (es es' : List ElemRt) (h : es'.map endView = es.map endView)
+    (j : Nat) : endItemsAt c es' j = endItemsAt c es j := by
+  have hj : (es'.map endView)[j]? = (es.map endView)[j]? := by rw [h]
+  simp only [List.getElem?_map] at hj
+  simp only [endItemsAt]
+  cases h1 : es'[j]? with
+  | none =>
+    cases h2 : es[j]? with
+    | none => rfl
+    | some e => rw [h1, h2] at hj; simp at hj
+  | some e' =>
+    cases h2 : es[j]? with
+    | none => rw [h1, h2] at hj; simp at hj
+    | some e =>
+      rw [h1, h2] at hj
+      simp only [Option.map_some, Option.some.injEq, endView, Prod.mk.injEq] at hj
+      simp only [endItems, hj.1, hj.2]
 
-/-- the trace of one event is the index-based trace of the specification -/
-theorem runEvent_items (c : Ctx) (m : ModRt) (kind : Kind) :
-    (runEvent c m kind).items = traceShape c m kind := by
-  simp only [runEvent, traceShape, upstream_spec, downstream_spec, upItemsOff_zero,
-    endItemsOff_zero, List.length_map]
+/-- the trace of one bracket is the index-based trace of the specification -/
+theorem bracket_items (c : Ctx) (m : ModRt) (kind : Kind) (woken : Sleepers) :
+    (bracket c m kind woken).2 = traceShape c m kind woken := by
+  have hv := upstream_view c m.elems 0 kind.msg?
+  have hlen : (upstream c 0 m.elems kind.msg?).1.length = m.elems.length := by
+    have := congrArg List.length hv
+    simpa using this
+  simp only [bracket, traceShape, upstream_spec, downstream_spec, upItemsOff_zero,
+    endItemsOff_zero, hlen]
   congr 1
-  exact flatMap_congr' (fun j _ => endItemsAt_bumpStart c m.elems j)
+  exact flatMap_congr' (fun j _ => endItemsAt_view c m.elems _ hv j)
 
 /-- the behaviours of the stack never change -/
-theorem runEvent_acts (c : Ctx) (m : ModRt) (kind : Kind) :
-    (runEvent c m kind).mod.elems.map (·.spec.act) = m.elems.map (·.spec.act) := by
-  simp only [runEvent, upstream_spec, downstream_spec, List.map_map]
+theorem bracket_acts (c : Ctx) (m : ModRt) (kind : Kind) (woken : Sleepers) :
+    (bracket c m kind woken).1.elems.map (·.spec.act) = m.elems.map (·.spec.act) := by
+  have hv := upstream_view c m.elems 0 kind.msg?
+  have h1 : ∀ l : List ElemRt, l.map (·.spec.act) = (l.map endView).map (·.1.act) := by
+    intro l; simp [endView, List.map_map, Function.comp_def]
+  simp only [bracket, downstream_spec]
+  rw [h1 m.elems, ← hv, ← h1, List.map_map]
   apply List.map_congr_left
   intro e _
-  simp [bumpStart, bumpEnd]
+  simp [bumpEnd]
+
+theorem runEvent_items (c : Ctx) (m : ModRt) (kind : Kind) :
+    (runEvent c m kind).items = traceShape c m kind (dueTasks c m) := by
+  simp only [runEvent, bracket_items]
+  rfl
+
+theorem runEvent_acts (c : Ctx) (m : ModRt) (kind : Kind) :
+    (runEvent c m kind).mod.elems.map (·.spec.act) = m.elems.map (·.spec.act) := by
+  have h : (runEvent c m kind).mod.elems = (bracket c (activate c m).1 kind (activate c m).2).1.elems := by
+    simp only [runEvent, deactivate]
+    split
+    · split
+      · split <;> rfl
+      · rfl
+    · rfl
+  rw [h, bracket_acts]
+  rfl
 
 /-! ### from the trace to the call log -/
 
@@ -158,10 +210,16 @@ theorem toItem_entry (c : Ctx) (e : Emit) : (e.toItem c).entry? = none := by
   · split <;> rfl
   · rfl
 
-theorem emits_entries (c : Ctx) (l : List Emit) : (l.map (Emit.toItem c)).filterMap Item.entry? = [] := by
+theorem action_entry (c : Ctx) (a : Action) : (a.toItem c).entry? = none := by
+  cases a with
+  | send e => exact toItem_entry c e
+  | shutdown r => rfl
+
+theorem emits_entries (c : Ctx) (l : List Action) :
+    (l.map (Action.toItem c)).filterMap Item.entry? = [] := by
   induction l with
   | nil => rfl
-  | cons e l ih => simp [toItem_entry, ih]
+  | cons e l ih => simp [action_entry, ih]
 
 theorem hNow_entries (c : Ctx) (l : List HEmit) : (hNow c l).filterMap Item.entry? = [] := by
   induction l with
@@ -170,6 +228,9 @@ theorem hNow_entries (c : Ctx) (l : List HEmit) : (hNow c l).filterMap Item.entr
     cases h with
     | now e => simp [hNow, toItem_entry, ih]
     | task x e => simpa [hNow] using ih
+    | shutdown r =>
+      have h : (Item.down (r.map (c.now + ·))).entry? = none := rfl
+      simp only [hNow, List.filterMap_cons, h, ih]
 
 theorem sleepers_entries (c : Ctx) (l : Sleepers) :
     (l.map (fun s => s.2.toItem c)).filterMap Item.entry? = [] := by
@@ -177,7 +238,7 @@ theorem sleepers_entries (c : Ctx) (l : Sleepers) :
   | nil => rfl
   | cons e l ih => simp [toItem_entry, ih]
 
-theorem handlerItems_entries (c : Ctx) (h : Handler) (kind : Kind) (out : Option Nat) :
+theorem handlerItems_entries (c : Ctx) (h : ModRt) (kind : Kind) (out : Option Nat) :
     (handlerItems c h kind out).filterMap Item.entry? = handlerEntries c.mod c.now kind out := by
   cases kind with
   | message id =>
@@ -207,8 +268,8 @@ theorem endItemsAt_entries (c : Ctx) (es : List ElemRt) (j : Nat) (hj : j < es.l
     emits_entries, endEntry]
 
 /-- the call log of one event is the bracket -/
-theorem traceShape_entries (c : Ctx) (m : ModRt) (kind : Kind) :
-    (traceShape c m kind).filterMap Item.entry? =
+theorem traceShape_entries (c : Ctx) (m : ModRt) (kind : Kind) (woken : Sleepers) :
+    (traceShape c m kind woken).filterMap Item.entry? =
       shape c.mod c.now (m.elems.map (·.spec.act)) kind := by
   simp only [traceShape, shape, List.filterMap_append, filterMap_flatMap, handlerItems_entries,
     sleepers_entries, List.append_nil, List.length_map]
